@@ -92,6 +92,7 @@ def year_task(year):
         speak = {d['name']: d for d in xfa}
         seen_targets = {}
         groups = {}
+        pairs = {}
         for pf in pdf_fields:
             res['mappings'] += 1
             tgt = pf.pdf_field_name
@@ -137,6 +138,10 @@ def year_task(year):
                     V(key + ':export', 'check box %s is switched on with export value %r but the template only knows %s' % (tgt, pf._true_value, a['states']))
                 base = re.sub(r'\[\d+\]$', '', tgt)
                 groups.setdefault((base, ln), []).append(pf)
+                # AcroForm-only templates (NC): a yes/no pair of boxes shares its name stem
+                ym = re.match(r'^(.*?)(yes|no)$', tgt, re.I)
+                if ym:
+                    pairs.setdefault(ym.group(1), []).append((pf, ln))
             elif isinstance(pf, P.TextPDFField):
                 lim = a['maxlen'] if a['maxlen'] is not None else (speak.get(tgt) or {}).get('max_chars')
                 if lim is not None and pf.max_length is not None and pf.max_length != lim:
@@ -148,6 +153,19 @@ def year_task(year):
             elif isinstance(pf, P.ChoicePDFField):
                 if a['opts'] and any(c not in a['opts'] for c in pf._choices if c != ''):
                     V(key + ':choices', 'choice mapping %s offers values the template does not list' % tgt)
+        # ---- yes/no pairs must be driven by one line (and are then checked for exclusivity below)
+        for stem, lst in pairs.items():
+            if len(lst) == 2:
+                (pa, la), (pb, lb) = lst
+                ok = la == lb
+                res['obl'].append(('ty%d/%s/yes-no-pair/%s' % (year, cls.form_name, stem), 'unsat' if ok else 'sat', 0.0))
+                if not ok:
+                    V('ty%d:%s:%s:pair' % (year, cls.form_name, stem), 'the yes/no boxes %s / %s are driven by different lines (%s / %s)' % (pa.pdf_field_name, pb.pdf_field_name, la, lb))
+                else:
+                    groups.setdefault((stem + '(yes/no)', la), [])
+                    for pf_, _ in lst:
+                        if pf_ not in groups[(stem + '(yes/no)', la)]:
+                            groups[(stem + '(yes/no)', la)].append(pf_)
         # ---- symbolic: exclusivity within groups of boxes sharing a parent and a driving line
         for (base, ln), pfs in groups.items():
             if len(pfs) < 2:
